@@ -3,13 +3,16 @@ import Lemmas.LogHandlersErrs
 import Lemmas.TraceProto
 import Lemmas.TraceSync
 import Lemmas.LogEntry
+import Lemmas.LogLine
+import Lemmas.LogFanout
 /-! # C13 — log handlers deliver each record whole, once, to every sink
 
 Property theorems only.  The definitions (`TL.render`, `TL.deliver`, `TL.withGroup`, `TL.withAttrs`, `TL.Buf.*`,
 `ML.handle`, `ML.withGroup`, `ML.withAttrs`) are those of `Model/LogHandlers.lean`, which the driver `drv_c13` executes
 against the Go code on every check.  `TLSpec.line` (in `Lemmas/LogHandlers.lean`) is the declarative specification of a
-record's bytes.  The model is sequential: the clauses about concurrent loggers are not theorems here (see the
-implementation-side oracle `stress` of the check). -/
+record's bytes.  The clauses about concurrent loggers are theorems about the protocol models `TraceProto` (buffered
+mode) and `TraceSync` (synchronous mode, an instance of the generic mutex machine); `Props/C13Lock.lean` decides that the
+source has the lock / channel shape of these protocols, `Props/C13Facts.lean` that the constants are the source's. -/
 namespace C13
 open TL ML TLSpec
 
@@ -425,6 +428,33 @@ theorem fanout_each_enabled_once (cs : List Child) (level : Int) :
   have := (handle_gen cs level {}).1
   simpa [ML.handle] using this
 
+/-- "hands each record exactly once to every child enabled for its level", down to the `Write` calls
+    (`ML.handleTL`, which the driver executes for every record given to a fan-out handler: each enabled child renders the
+    record with ITS OWN groups and attributes and delivers it to ITS sink, the states of the sinks threaded through
+    because children may share one): with synchronous sinks the sinks receive, in the order of the children, exactly
+    one `Write` per enabled child, whose bytes are that child's whole rendering of the record — nothing for a disabled
+    child, nothing twice, whatever the other children's sinks do (fail, panic); every delivery ends the way its own sink
+    dictates; and the sinks' states are what they were -/
+theorem fanout_writes_each_enabled_child_once (σ : Store) (ss : ML.Sinks) (m : ML.Handler) (r : Record)
+    (hs : ML.AllSync ss) :
+    (ML.handleTL σ ss m r).writes =
+      (m.children.filter (TL.enabled · r.level)).map (fun c => (c.sink, TL.render σ c r)) ∧
+    (ML.handleTL σ ss m r).rets =
+      (m.children.filter (TL.enabled · r.level)).map (fun c => (c.sink, ML.syncRet ss c)) ∧
+    (∀ i, ML.getSink (ML.handleTL σ ss m r).sinks i = ML.getSink ss i) := by
+  obtain ⟨h1, h2, h3⟩ := ML.foldl_stepTL_sync σ r ss hs m.children { sinks := ss } (fun _ => rfl)
+  exact ⟨by simpa [ML.handleTL] using h2, by simpa [ML.handleTL] using h3, h1⟩
+
+/-- non-vacuity: three children on three sinks — the second below its level, the third's sink panics: the first and
+    the third sink each receive the record once, the second nothing -/
+example :
+    let mk (k : Nat) (lvl : Int) : TL.Handler := { level := lvl, names := [], sink := k, list := { arr := 0, len := 0 } }
+    let f := ML.handleTL {} [(3, { mode := .panic })] { children := [mk 1 0, mk 2 8, mk 3 0] }
+      { level := 4, ts := [64], msg := [109], attrs := [] }
+    f.writes = [(1, [87, 82, 78, 64, 109, 10]), (3, [87, 82, 78, 64, 109, 10])] ∧
+    f.rets = [(1, .nil), (3, .panic 3)] := by
+  decide
+
 /-- "Handle returns nil exactly when every delivery succeeded" -/
 theorem fanout_nil_iff_all_ok (cs : List Child) (level : Int) :
     (ML.handle cs level).isNil = true ↔ ∀ c ∈ cs, c.enabled level = true → runChild c = none := by
@@ -589,8 +619,10 @@ theorem with_attrs_empty (σ : Store) (m : ML.Handler) :
 
 `ELog.logToTL` is the body shared by the ten entry points (`Log`, `LogTo`, `LogContext`, `LogContextTo`, `LogWithLevel` and
 their `LogAttrs*` twins) run over a tracelog handler: enabled? — `createRecord` — the caller's attributes — `Handle`, result
-dropped.  The driver runs `ELog.createRecord` for every `logx` line and, for real `*errs.Error` values with their real
-stack text, the judge `sv` compares the bytes of the `Write` with `TL.format … (ELog.createRecord …)`. -/
+dropped.  The driver runs `ELog.logToTL` (tracelog handlers) / `ELog.logRecord` (multilog handlers) for every `logx` line, the real
+stack text being replaced by a placeholder after the harness has checked it; `stackValue.LogValue` is compared with
+`ELog.logValueText` byte for byte through the attribute word `s` (the library's own `*stackValue` over a scripted stack
+text, in every position an attribute can take). -/
 
 section ErrsLog
 open ELog
@@ -621,6 +653,30 @@ theorem errlog_stack_lines_follow (σ : Store) (h : TL.Handler) (sk : SinkSt) (l
   simp only [logToTL, logRecord, hen', if_true]
   rw [one_write_per_record sk h.sink _ hb, hr, hm]
   cases sk.mode <;> rfl
+
+/-- the same through a fan-out handler: `errs.Log*` of an error into `multilog.New(children…)` whose children are
+    synchronous tracelog handlers with no group in force — EVERY child enabled for the level receives exactly one
+    `Write`: ITS main line (its level names, its `WithAttrs` attributes, the caller's attributes), a line feed, the
+    error's stack text, a line feed; the children below the level receive nothing; whatever the sinks answer -/
+theorem errlog_fanout_stack_lines_follow (σ : Store) (ss : ML.Sinks) (m : ML.Handler) (level : Int) (now : Bytes)
+    (e : EErr) (attrs : List Attr) (hs : ML.AllSync ss)
+    (hg : ∀ c ∈ m.children, prefixE [] (σ.view c.list) = []) (hp : carrierFreeL attrs = true) :
+    (ML.handleTL σ ss m (createRecord level now (some e) attrs)).writes =
+      (m.children.filter (TL.enabled · level)).map fun c =>
+        (c.sink, mainLine c.names (σ.view c.list) { level := level, ts := now, msg := e.msg, attrs := attrs } ++ [10] ++
+                  e.trace ++ [10]) := by
+  have hlv : (createRecord level now (some e) attrs).level = level := rfl
+  rw [(fanout_writes_each_enabled_child_once σ ss m _ hs).1, hlv]
+  apply List.map_congr_left
+  intro c hc
+  have hcm : c ∈ m.children := (List.mem_filter.mp hc).1
+  have hr := stack_lines_follow σ c (createRecord level now (some e) attrs) [] attrs e.trace
+    (.leaf stackKey (logValueText e.trace)) (hg c hcm) (by simp [createRecord, stackAttr]) hp
+  have hm : mainLine c.names (σ.view c.list) (createRecord level now (some e) attrs) =
+      mainLine c.names (σ.view c.list) { level := level, ts := now, msg := e.msg, attrs := attrs } := by
+    simp [mainLine, allPieces, hg c hcm, createRecord, stackAttr, piecesL, pieces, anyVisible, texts, Piece.visible,
+      Piece.text, TL.header]
+  rw [hr, hm]
 
 /-- "every record AT OR ABOVE the configured level": below it, `errs.Log*` does nothing at all — no `Write`, the sink
     state untouched, nothing reaches the caller -/
@@ -708,7 +764,8 @@ end ErrsLog
 
 `Rec.recovery guarded eh handler p?` is `Recovery(handler)` running as the deferred call of a function that unwinds with
 the panic `p?` (or returns normally: `none`); `guarded = true` is the code (`defer Recovery(nil)` before the handler is
-called).  The driver runs it for every `rec` line and inside every multilog delivery whose tracelog child panics. -/
+called).  The driver runs it for every `rec` line (area `rec`, compared with `errs.Recovery` call by call) and — as
+`Rec.runHandler` — for every multilog delivery. -/
 
 section Recovery
 open Rec
@@ -787,6 +844,79 @@ example :
   decide
 
 end Recovery
+
+/-! ## "one line" -/
+
+/-- "… exactly one Write to the sink consisting of ONE LINE …, followed by the stack-trace lines": when the level tag,
+    the time stamp, the message, the group names and every key and rendered value the record can print contain no line
+    feed (`NoLFE` / `NoLFL`: the code writes them raw, see `format_spec`), the bytes of the `Write` are a main line
+    WITHOUT any line feed, one line feed, and then either nothing or the stack text and a final line feed.  So the
+    first line feed of the `Write` ends the record's line; nothing of another line precedes the stack text.  (The stack
+    text of a carrier is not constrained: it is what follows the line.) -/
+theorem record_is_one_line_then_stack (σ : Store) (h : TL.Handler) (r : Record)
+    (hh : 10 ∉ TL.header h.names r) (he : NoLFE (σ.view h.list)) (ha : NoLFL r.attrs) :
+    10 ∉ mainLine h.names (σ.view h.list) r ∧
+    ((lastStack (allPieces (σ.view h.list) r) = none ∧
+        TL.render σ h r = mainLine h.names (σ.view h.list) r ++ [10]) ∨
+     (∃ tr, lastStack (allPieces (σ.view h.list) r) = some tr ∧
+        TL.render σ h r = mainLine h.names (σ.view h.list) r ++ [10] ++ tr ++ [10])) := by
+  refine ⟨mainLine_noLF _ _ _ hh he ha, ?_⟩
+  have hr : TL.render σ h r = line h.names (σ.view h.list) r := format_eq_line h.names (σ.view h.list) r
+  rw [hr, line]
+  cases hl : lastStack (allPieces (σ.view h.list) r) with
+  | none => exact Or.inl ⟨rfl, rfl⟩
+  | some tr => exact Or.inr ⟨tr, rfl, rfl⟩
+
+/-- the hypothesis about the header, for the level tags the code writes itself: with no configured names, a header is
+    free of line feeds as soon as the time stamp and the message are, for the four named levels -/
+theorem header_clean_named_levels (r : Record) (hl : r.level = -4 ∨ r.level = 0 ∨ r.level = 4 ∨ r.level = 8)
+    (ht : 10 ∉ r.ts) (hm : 10 ∉ r.msg) : 10 ∉ TL.header [] r := by
+  rcases hl with h | h | h | h <;> simp [TL.header, TL.levelTag, h, ht, hm, List.lookup]
+
+section ErrsLogLine
+open ELog
+
+/-- "one line" for `errs.Log*`, whatever the stack text is: the record `createRecord` builds for an error prints no
+    line feed through its stack attribute — picked up (no group in force) it prints nothing on the line, and under
+    `WithGroup` it prints `LogValue()`, which contains none (`logValueText_no_lf`) — so with clean caller attributes
+    `record_is_one_line_then_stack` applies to it -/
+theorem errlog_record_attrs_clean (level : Int) (now : Bytes) (err : Option EErr) (attrs : List Attr)
+    (ha : NoLFL attrs) : NoLFL (createRecord level now err attrs).attrs := by
+  cases err with
+  | none => simpa [createRecord] using ha
+  | some e =>
+    have hk : (10 : Nat) ∉ stackKey := by decide
+    simp [createRecord, stackAttr, NoLFL, NoLF, ha, hk, logValueText_no_lf e.trace]
+
+/-- what `stackValue.LogValue` prints (`errs/log.go:115-132`), declaratively: the stack text is cut exactly at its line
+    feeds (joining the pieces by line feeds gives it back, no piece contains one), and each piece is replaced by a
+    contiguous part of itself that neither begins nor ends with a white-space rune (`strings.TrimSpace` for the
+    code points `unicode.IsSpace` accepts, `ELog.spaceSeqs`) -/
+theorem logvalue_lines_cut_and_trimmed (trace : Bytes) :
+    joinLF (splitLF trace) = trace ∧ (∀ l ∈ splitLF trace, 10 ∉ l) ∧
+    (∀ l : Bytes, trimSpace l <:+: l ∧ stripOne spaceSeqs (trimSpace l) = none ∧
+      stripOne (spaceSeqs.map List.reverse) (trimSpace l).reverse = none) :=
+  ⟨joinLF_splitLF trace, fun l hl => splitLF_no_lf trace l hl,
+    fun l => ⟨trimSpace_infix l, trimSpace_no_leading_space l, trimSpace_no_trailing_space l⟩⟩
+
+/-- non-vacuity: U+2003 EM SPACE and a tab are trimmed, U+200B ZERO WIDTH SPACE and the information separator 0x1F are
+    not white space for `unicode.IsSpace` and stay; an inner no-break space stays -/
+example :
+    trimSpace [0xE2, 0x80, 0x83, 9, 97, 0xC2, 0xA0, 98, 0xE2, 0x80, 0x8B, 32] = [97, 0xC2, 0xA0, 98, 0xE2, 0x80, 0x8B] ∧
+    trimSpace [0x1F, 97, 13] = [0x1F, 97] ∧ trimSpace [32, 9, 0xE3, 0x80, 0x80] = [] ∧
+    logValueText [32, 10, 10, 97, 32] = [91, 32, 32, 97, 93] := by
+  decide
+
+end ErrsLogLine
+
+/-- non-vacuity of `record_is_one_line_then_stack`, and the raw line feed the hypotheses exclude: a key with a line
+    feed is written as it is (two "lines" for one record) -/
+example :
+    TL.format [] [] { level := 0, ts := [64], msg := [109], attrs := [.leaf [107, 10, 108] [118]] } =
+      [73, 78, 70, 64, 109, 32, 124, 32, 107, 10, 108, 61, 118, 10] ∧
+    NoLFL [.leaf [107] [118], .group [103] [.leaf [97] [98]]] := by
+  refine ⟨by decide, ?_⟩
+  simp [NoLFL, NoLF]
 
 /-! ## non-vacuity: the hypotheses are met by concrete values -/
 
